@@ -19,6 +19,7 @@ RULE = (
     "case = sequence (<=12) of outbound items sent on the write stream of an entered StdioClient (scripted child): typed message (each of the four envelope classes and the unified class), "
     "plain dict, pre-serialised single-line JSON string (stdlib, both ensure_ascii modes, both separator styles), or an unserialisable object (object(), dict holding a set / bytes / lambda, "
     "self-referential list, object whose model_dump_json raises) at any position; payloads over JSON values with \\n, \\r, U+2028, NUL, quotes, astral characters, nested nulls, 64-bit ints; "
+    "optionally server batches arriving d scheduler turns into the write of chosen items (the reader task then writes a -32600 rejection on the same stdin) and payloads beyond 64 KiB / 64-bit ints / deep nesting; "
     "then the write stream is closed; oracle on the bytes recorded at the child's stdin: ends with LF, exactly one line per serialisable item in order, no raw CR/LF inside a line, each line "
     "is UTF-8 JSON equal (type-strict) to the item with absent optional members omitted, unserialisable items leave no bytes, stdin closed after the write stream closes; "
     "non-trivial = an unserialisable item followed by a serialisable one, or a payload with a raw line-break character, or a nested null; distinct = distinct sequence"
